@@ -51,6 +51,72 @@ for k in range(1, N + 1):
                          "expected": repr([r[0] for r in revs])})
         if len(samples) < 2 and k == 5 and max(prof) == 2:
             samples.append({"depths": prof, "reversed": [r[0].decode() for r in got]})
+
+# ---- per-file log (_filter_revisions_touching_path): for every depth profile and every set of revisions that modified the file, the
+#      revisions listed are exactly the modifying revisions plus, for each of them, the revisions that merged it (one per shallower
+#      level: the nearest earlier revision of that level with nothing as shallow in between); with include_merges=False only the
+#      mainline ones. In particular the MAINLINE revisions listed are those whose own change or merged block touches the file - what
+#      comparing trees along the mainline finds (the statement's "same mainline revisions").
+class _Graph:
+    def __init__(self, modified):
+        self.modified = modified
+
+    def get_parent_map(self, keys):
+        return {k: () for k in keys if k[1] in self.modified}
+
+
+class _Tree:
+    def path2id(self, path):
+        return b"file-id"
+
+
+class _Repo:
+    def __init__(self, modified):
+        self.g = _Graph(modified)
+
+    def get_file_graph(self):
+        return self.g
+
+    def revision_tree(self, rev_id):
+        return _Tree()
+
+
+class _Branch:
+    def __init__(self, modified):
+        self.repository = _Repo(modified)
+
+
+def expected_listing(revs, modified, include_merges):
+    want = set()
+    for i, r in enumerate(revs):
+        if r[0] not in modified:
+            continue
+        want.add(i)
+        for level in range(r[2]):
+            # nearest earlier revision at this level with nothing as shallow (<= level) between it and i
+            j = i - 1
+            while j >= 0 and revs[j][2] > level:
+                j -= 1
+            if j >= 0 and revs[j][2] == level:
+                want.add(j)
+    return set(i for i in want if include_merges or revs[i][2] == 0)
+
+
+NF = 6 if tier == "quick" else 8
+n_file = 0
+for k in range(1, NF + 1):
+    for prof in profiles(k):
+        revs = [(b"r%d" % i, "%d" % i, d) for i, d in enumerate(prof)]
+        for mask in range(1, 2 ** k):
+            modified = set(revs[i][0] for i in range(k) if mask >> i & 1)
+            for include_merges in (True, False):
+                n += 1; n_file += 1
+                got = log._filter_revisions_touching_path(_Branch(modified), "f", list(revs), include_merges=include_merges)
+                want = expected_listing(revs, modified, include_merges)
+                gi = [revs.index(g) for g in got]
+                if (sorted(gi) != sorted(want) or len(set(gi)) != len(gi)) and len([v for v in viol if "per_file" in v["name"]]) < 4:
+                    viol.append({"name": "bounded::C25.per_file_log", "witness": "depths %r modified %r include_merges=%s" % (
+                        prof, sorted(m.decode() for m in modified), include_merges), "observed": repr(sorted(gi)), "expected": repr(sorted(want))})
 print(json.dumps({"evaluations": n, "distinct_nontrivial": nontrivial, "exhaustive": True,
-                  "rule": "every depth profile of length 1..%d that starts at depth 0 and goes at most one level deeper per step; non-trivial = contains a merged revision" % N,
+                  "rule": "every depth profile of length 1..%d that starts at depth 0 and goes at most one level deeper per step; non-trivial = contains a merged revision; per-file log: every profile up to length %d x every non-empty set of modifying revisions x include_merges" % (N, NF),
                   "samples": samples, "violations": viol, "label": "bounded"}))
